@@ -205,6 +205,41 @@ theorem C15_sameUpToCtx_too_fine :
   ⟨.node cs!"Foo" true [] none [(cs!"a", .scalar cs!"None" .nameConst), (cs!"b", .scalar cs!"1" .num)],
    .node cs!"Foo" true [] none [(cs!"b", .scalar cs!"1" .num)], by decide⟩
 
+/-- **C15 (hash ⇔ same expression up to load/store context, in the vocabulary of the property).** If moreover the
+tree has one list of field names per node type (`conforms sch`, for some schema `sch` — every real tree has: an `ast`
+class has one `_fields` tuple; the driver evaluates it with the schema read off the tree itself), then the relation
+is `sameUpToCtx`, the one of `C15_hash_structural`: within one flattening two expression nodes get the same `_hash`
+**iff** they have the same types, field names and terminal values once the `ctx` fields are removed. -/
+theorem C15_hash_iff_sameUpToCtx (t : Val) (sch : List (Str × List Str)) (hw : wfDump t = true)
+    (hd : reprsAreDumps t = true) (hs : conforms sch t = true) (p1 p2 : List Nat)
+    {ty1 ty2 r1 r2 : Str} {ln1 ln2 : Option Nat} {fs1 fs2 : List (Str × Val)}
+    (h1 : t.at? p1 = some (.node ty1 true r1 ln1 fs1)) (h2 : t.at? p2 = some (.node ty2 true r2 ln2 fs2)) :
+    hashFn t r1 = hashFn t r2 ↔ sameUpToCtx (.node ty1 true r1 ln1 fs1) (.node ty2 true r2 ln2 fs2) = true := by
+  obtain ⟨ns1, hn1⟩ := at_exists h1
+  obtain ⟨ns2, hn2⟩ := at_exists h2
+  constructor
+  · intro h
+    exact sameUpToCtx_of_sameExpr (conforms_of_at hn1 hs) (conforms_of_at hn2 hs)
+      ((C15_hash_iff t hw hd p1 p2 h1 h2).mp h)
+  · exact C15_hash_structural t hd p1 p2 h1 h2
+
+/-- Non-vacuity of `conforms`: a tuple of two slices `x[:2]` (lower absent) and `x[1:]` (upper absent), all three
+fields present in each `Slice` node as in a real tree; the schema is the one read off the tree. The two slices are
+not `sameUpToCtx`; `Foo(a=None, b=1)` next to `Foo(b=1)` does not conform to any schema. -/
+example :
+    let mk (ty : Str) (fs : List (Str × Val)) : Val := .node ty true (dumpNoCtx (.node ty true [] none fs)) none fs
+    let none : Val := .scalar cs!"None" .nameConst
+    let k (r : Str) : Val := mk cs!"Constant" [(cs!"value", .scalar r .num), (cs!"kind", none)]
+    let a := mk cs!"Slice" [(cs!"lower", none), (cs!"upper", k cs!"2"), (cs!"step", none)]
+    let b := mk cs!"Slice" [(cs!"lower", k cs!"1"), (cs!"upper", none), (cs!"step", none)]
+    let t := mk cs!"Tuple" [(cs!"elts", .list false [a, b]), (cs!"ctx", .node cs!"Load" false [] Option.none [])]
+    let bad : Val := .list false [.node cs!"Foo" true [] Option.none [(cs!"a", none), (cs!"b", .scalar cs!"1" .num)],
+      .node cs!"Foo" true [] Option.none [(cs!"b", .scalar cs!"1" .num)]]
+    wfDump t = true ∧ reprsAreDumps t = true ∧ conforms (schemaOf t) t = true ∧
+      dumpNoCtx a = cs!"Slice(upper=Constant(value=2))" ∧ dumpNoCtx b = cs!"Slice(lower=Constant(value=1))" ∧
+      sameUpToCtx a b = false ∧ sameExpr a b = false ∧ hashFn t (dumpNoCtx a) ≠ hashFn t (dumpNoCtx b) ∧
+      conforms (schemaOf bad) bad = false := by decide
+
 /-- Non-vacuity, shared prefix: `f(x)` and `f(x, y)` in one tuple. The tree is well-formed, its hash sources are
 its dumps (`Call(func=Name(id='f'), args=[Name(id='x')], keywords=[])` is a proper prefix-sharing sibling of the
 other), the two calls are not the same expression and get different hashes; the two `x` get the same. -/
